@@ -211,3 +211,242 @@ Proof.
     split; [eapply TI_step; eauto|exact Hsh'].
   - exfalso. eapply Hne. reflexivity.
 Qed.
+
+(* ------------------------------------------------------------------ *)
+(* EndBlock: the expiry loop *)
+
+Lemma log_deactivate s r : log (deactivate s r) = log s.
+Proof. unfold deactivate. destruct (get r (reqs s)); reflexivity. Qed.
+
+Lemma NI_slash cfg s r s1 : slash cfg s r = Ok s1 -> NI s s1.
+Proof.
+  intros H. apply slash_shape in H.
+  destruct H as (q & rc & b & amt & b2 & _ & _ & _ & _ & _ & _ & _ & _ & _ & _ & _ & ->). ext_auto.
+Qed.
+
+Lemma NI_refund s r cons fee s1 : refund_fee s r cons fee = Some s1 -> NI s s1.
+Proof. intros H. apply refund_shape in H. destruct H as (_ & _ & ->). ext_auto. Qed.
+
+Lemma NI_expire_req cfg s r : NI s (expire_req cfg s r).
+Proof.
+  unfold expire_req.
+  destruct (get r (reqs s)) as [q|]; [|apply NI_refl].
+  destruct (get (rid_ctx r) (ctxs s)) as [rc|]; [|apply NI_refl].
+  eapply NI_trans; [|unfold NI; sproj; apply ext_cons; [exact I|apply ext_refl]].
+  eapply NI_trans; [|apply NI_same, log_deactivate].
+  destruct (c_super rc); [apply NI_refl|].
+  assert (Hsa : NI s (match slash cfg s r with Ok x => x | _ => s end)).
+  { destruct (slash cfg s r) eqn:Es; try apply NI_refl. eapply NI_slash; eauto. }
+  destruct (refund_fee _ r (c_cons rc) (r_fee q)) eqn:Er; [|assumption].
+  eapply NI_trans; [exact Hsa|]. eapply NI_refund; eauto.
+Qed.
+
+Lemma refund_ok s r cons fee :
+  0 <= fee -> fee <= bal s Escrow -> exists x, refund_fee s r cons fee = Some x.
+Proof.
+  intros H0 Hle. unfold refund_fee, transfer.
+  destruct ((fee <? 0) || (bal s Escrow <? fee)) eqn:E; [|eauto].
+  apply orb_true_iff in E. destruct E; b2p; lia.
+Qed.
+
+Definition price_ok (cfg : Params) (s : State) : Prop :=
+  forall k b, get k (binds s) = Some b -> b_avail b = true ->
+    pr_price (pricing_of s k) * p_multiple cfg < INT_LIMIT.
+
+Lemma I_index_price_ok cfg s : I_index cfg s -> price_ok cfg s.
+Proof.
+  intros (I1 & _) k b G Hav. apply get_In in G.
+  destruct (I1 _ _ G) as (_ & _ & _ & Gp & _ & _ & Hlim).
+  unfold pricing_of. rewrite Gp. auto.
+Qed.
+
+(* what the loop carries *)
+Definition LI (cfg : Params) (s : State) : Prop :=
+  I_wf s /\ BDM cfg s /\ I_index cfg s /\ J s /\ T cfg s.
+
+Lemma Inv_LI cfg s : Inv cfg s -> T cfg s -> LI cfg s.
+Proof.
+  intros HI HT. split; [apply HI|]. split; [now apply Inv_BDM|]. split; [apply HI|].
+  split; [now apply (Inv_J cfg)|exact HT].
+Qed.
+
+(* the slash of a stored request whose binding exists cannot fail *)
+Lemma slash_succeeds cfg s r q rc :
+  wf_cfg cfg -> BDM cfg s -> I_index cfg s ->
+  get r (reqs s) = Some q -> get (rid_ctx r) (ctxs s) = Some rc ->
+  has (c_svc rc, r_prov q) (binds s) = true ->
+  exists sa, slash cfg s r = Ok sa.
+Proof.
+  intros Hcfg Hbdm Hidx G Grc Hb.
+  apply has_true in Hb. destruct Hb as (b & Gb).
+  apply (slash_ok cfg s r q rc b); try assumption.
+  - apply Hcfg.
+  - eapply BDM_dep_nonneg; eauto.
+  - eapply BDM_dep_le_custody; eauto.
+  - intros Hav. eapply I_index_price_ok; eauto.
+Qed.
+
+Lemma escrow_covers s r q : J s -> get r (reqs s) = Some q -> r_active q = true -> r_fee q <= bal s Escrow.
+Proof.
+  intros (_ & _ & He & Hf & Hea & _) G Ha. unfold I_escrow in He.
+  pose proof (fee_active_le_sum s r q Hf G) as Hle. unfold fee_active at 1 in Hle. rewrite Ha in Hle.
+  assert (0 <= msum vid (earned s)) by (apply msum_nonneg; exact Hea). lia.
+Qed.
+
+(* the events of one expired request *)
+Lemma expire_req_log cfg s r q rc :
+  wf_cfg cfg -> BDM cfg s -> I_index cfg s -> J s ->
+  get r (reqs s) = Some q -> r_active q = true -> get (rid_ctx r) (ctxs s) = Some rc ->
+  has (c_svc rc, r_prov q) (binds s) = true ->
+  if c_super rc then log (expire_req cfg s r) = [EvExpire r] ++ log s
+  else exists k amt,
+    log (expire_req cfg s r) = [EvExpire r; EvRefund r (c_cons rc) (r_fee q); EvSlash r k amt] ++ log s.
+Proof.
+  intros Hcfg Hbdm Hidx HJ G Ha Grc Hb.
+  rewrite (expire_req_unfold _ _ _ _ _ G Grc). unfold expire_settle.
+  destruct (c_super rc) eqn:Es.
+  - sproj. now rewrite log_deactivate.
+  - destruct (slash_succeeds cfg s r q rc Hcfg Hbdm Hidx G Grc Hb) as (sa & Esl). rewrite Esl.
+    assert (Hfee : 0 <= r_fee q).
+    { destruct HJ as (_ & _ & _ & Hf & _). apply (Hf r), get_In, G. }
+    pose proof (escrow_covers s r q HJ G Ha) as Hcov.
+    rewrite <- (slash_bal _ _ _ _ Escrow Esl) in Hcov by discriminate.
+    destruct (refund_ok sa r (c_cons rc) (r_fee q) Hfee Hcov) as (x & Er). rewrite Er.
+    apply slash_shape in Esl.
+    destruct Esl as (q' & rc' & b & amt & b2 & _ & _ & _ & _ & _ & _ & _ & _ & _ & _ & _ & ->).
+    apply refund_shape in Er. destruct Er as (_ & _ & ->).
+    exists (c_svc rc', r_prov q'), amt. sproj. now rewrite log_deactivate.
+Qed.
+
+Lemma expire_req_LI cfg s r q rc :
+  wf_cfg cfg -> LI cfg s ->
+  get r (reqs s) = Some q -> r_active q = true -> get (rid_ctx r) (ctxs s) = Some rc ->
+  (c_super rc = true -> r_fee q = 0) -> has (c_svc rc, r_prov q) (binds s) = true ->
+  LI cfg (expire_req cfg s r).
+Proof.
+  intros Hcfg (Hwf & Hbdm & Hidx & HJ & HT) G Ha Grc Hsup Hb.
+  split; [now apply wf_expire_req|]. split; [now apply BDM_expire_req|].
+  split.
+  { eapply index_sframe; [apply ff_expire_req| |exact Hidx].
+    pose proof (wf_expire_req cfg s r Hwf) as Hw'. apply Hw'. }
+  split; [eapply expire_req_J; eauto|].
+  destruct (T_active cfg s r q rc HT G Ha Grc) as (Etr & Hsf & _).
+  pose proof (expire_req_core cfg s r) as C. cbv zeta in C. destruct C as (_ & Ec & _).
+  split.
+  - eapply TI_step; [apply HT|apply NI_expire_req|now apply CtxMono_same].
+  - assert (Er : reqs (expire_req cfg s r) = set r (deact q) (reqs s)).
+    { rewrite expire_req_reqs, G, Grc. reflexivity. }
+    assert (Hfee : 0 <= r_fee q).
+    { destruct HJ as (_ & _ & _ & Hf & _). apply (Hf r), get_In, G. }
+    pose proof (expire_req_log cfg s r q rc Hcfg Hbdm Hidx HJ G Ha Grc Hb) as Hl.
+    destruct HT as (_ & Hsh).
+    destruct (c_super rc) eqn:Es.
+    + eapply (Sh_close_delta cfg s _ r q (c_cons rc)); try eassumption.
+      * intros r'. now rewrite Hl.
+      * repeat constructor.
+      * right; right; left. split; [auto|reflexivity].
+    + destruct Hl as (k & amt & Hl).
+      eapply (Sh_close_delta cfg s _ r q (c_cons rc)); try eassumption.
+      * intros r'. now rewrite Hl.
+      * repeat constructor.
+      * right; right; right. split; [|do 2 eexists; reflexivity].
+        assert (r_fee q <> 0) by (intros E; apply Hsf in E; congruence). lia.
+Qed.
+
+Lemma fold_expire_LI cfg l s :
+  wf_cfg cfg -> NoDup l -> LI cfg s ->
+  (forall r, In r l -> exists q rc, get r (reqs s) = Some q /\ r_active q = true
+      /\ get (rid_ctx r) (ctxs s) = Some rc /\ (c_super rc = true -> r_fee q = 0)
+      /\ has (c_svc rc, r_prov q) (binds s) = true) ->
+  LI cfg (fold_left (expire_req cfg) l s).
+Proof.
+  intros Hcfg. revert s. induction l as [|a l IH]; intros s Hn HL Hl; cbn [fold_left]; [assumption|].
+  inversion Hn as [|? ? Hni Hn']; subst.
+  destruct (Hl a (or_introl eq_refl)) as (q & rc & G1 & Ha & G2 & Hs & Hb).
+  apply IH; [assumption|eapply expire_req_LI; eauto|].
+  intros r Hr. destruct (Hl r (or_intror Hr)) as (q' & rc' & G1' & Ha' & G2' & Hs' & Hb').
+  exists q', rc'. pose proof (expire_req_core cfg s a) as (_ & C2 & _). rewrite C2.
+  rewrite expire_req_reqs, G1, G2. rewrite get_set_neq; [|intros ->; contradiction].
+  repeat split; auto. now apply has_binds_expire_req.
+Qed.
+
+(* ------------------------------------------------------------------ *)
+(* EndBlock: expire_one *)
+
+Lemma CtxMono_expire_one cfg s c :
+  wf_cfg cfg -> Inv cfg s -> In (height s, c) (expq s) -> height s < HEIGHT_BOUND ->
+  CtxMono s (expire_one cfg s c).
+Proof.
+  intros Hcfg HI Hdue Hb c' rc' G'. right.
+  assert (Hex : exists rc, get c' (ctxs s) = Some rc).
+  { destruct (expire_one_spec cfg s c Hcfg HI Hdue Hb)
+      as (rc0 & rc1 & Erc0 & _ & _ & _ & Ht & _).
+    destruct (eqb_spec c' c) as [->|Hn]; [eauto|].
+    rewrite (t_ctxs _ _ _ Ht) in G' by assumption. eauto. }
+  destruct Hex as (rc & G). exists rc. split; [exact G|].
+  pose proof (C10_counter_expire_one _ _ _ _ _ _ Hcfg HI Hdue Hb G G') as Ec.
+  destruct (C09_static_expire_one _ _ _ _ _ _ Hcfg HI Hdue Hb G G') as (_ & E2 & _ & E4 & _).
+  repeat split; try assumption. lia.
+Qed.
+
+Lemma NI_fold_expire cfg l s : NI s (fold_left (expire_req cfg) l s).
+Proof.
+  revert s. induction l as [|a l IH]; intros s; cbn [fold_left]; [apply NI_refl|].
+  eapply NI_trans; [apply NI_expire_req|apply IH].
+Qed.
+
+(* the settlement part: every still-active request of the batch is expired *)
+Lemma T_expire_settle cfg s c rc :
+  wf_cfg cfg -> Inv cfg s -> T cfg s -> get c (ctxs s) = Some rc ->
+  let s1 := fst (if c_bdone rc then (s, rc)
+                 else complete_batch (fold_left (expire_req cfg) (active_rids s c (c_counter rc)) s) c rc) in
+  Sh cfg s1 /\ NI s s1.
+Proof.
+  intros Hcfg HI HT Grc. cbv zeta.
+  destruct (c_bdone rc); cbn [fst]; [split; [apply HT|apply NI_refl]|].
+  set (l := active_rids s c (c_counter rc)). set (sf := fold_left (expire_req cfg) l s).
+  pose proof (inv_wf _ _ HI) as Hwf. assert (Hwr : wf (reqs s)) by apply Hwf.
+  destruct (inv_req _ _ HI) as (R1 & _).
+  assert (HL : LI cfg sf).
+  { apply fold_expire_LI; [assumption|now apply NoDup_active_rids|now apply Inv_LI|].
+    intros r Hr. apply In_active_rids in Hr; [|assumption].
+    destruct Hr as (q & G & Hc & _ & Ha). exists q.
+    pose proof (get_In _ _ _ G) as Gin.
+    destruct (R1 _ _ Gin) as (rc' & G2 & _ & _ & _ & _ & _ & _ & Hb & Hs).
+    exists rc'. repeat split; assumption. }
+  destruct HL as (_ & _ & _ & _ & (_ & Hsh)).
+  pose proof (complete_batch_frame sf c rc) as F. cbv zeta in F. destruct F as (F1 & _).
+  pose proof (Q_complete_batch sf c rc) as Hq.
+  split; [eapply Sh_quiet; eauto|].
+  eapply NI_trans; [|apply Q_NI, Hq].
+  apply NI_fold_expire.
+Qed.
+
+Theorem T_expire_one cfg s c :
+  wf_cfg cfg -> Inv cfg s -> T cfg s -> In (height s, c) (expq s) -> height s < HEIGHT_BOUND ->
+  T cfg (expire_one cfg s c).
+Proof.
+  intros Hcfg HI HT Hdue Hh.
+  pose proof (CtxMono_expire_one cfg s c Hcfg HI Hdue Hh) as Hm.
+  destruct (due_ctx _ _ _ HI Hdue) as (rc & Grc & Gexp).
+  pose proof (expire_one_settled cfg s c rc HI Grc Gexp) as HS. cbv zeta in HS.
+  pose proof (T_expire_settle cfg s c rc Hcfg HI HT Grc) as H1. cbv zeta in H1.
+  revert Hm. unfold expire_one, ctx_or_zero. rewrite Grc.
+  destruct (if c_bdone rc then (s, rc) else complete_batch _ c rc) as [s1 rc1] eqn:Epair.
+  cbn [fst] in HS, H1. intros Hm.
+  destruct HS as (HJ & _ & _ & Hinact & _). destruct H1 as (Hsh1 & Hni1).
+  set (n := c_counter rc1).
+  match goal with |- T cfg (clean_batch ?x c n) => set (s3 := x) in * end.
+  assert (H3 : reqs s3 = reqs s1 /\ Q s1 s3).
+  { unfold s3. destruct (c_state rc1); [destruct (c_rep rc1 && _)| |]; (split; [reflexivity|ext_auto]). }
+  destruct H3 as (H31 & H32).
+  destruct (clean_batch_fields s3 c n) as (Cr & _). cbv zeta in Cr.
+  pose proof (Q_clean_batch s3 c n) as Hqc.
+  split.
+  - eapply TI_step; [apply HT| |exact Hm].
+    eapply NI_trans; [exact Hni1|]. apply Q_NI. eapply Q_trans; eassumption.
+  - eapply (Sh_clean cfg s3 _ (batch_rids s3 c n)); [eapply Sh_quiet; eauto| |exact Cr|exact Hqc|].
+    + rewrite H31. apply HJ.
+    + intros r q Hr G. apply In_batch_rids in Hr. destruct Hr as (_ & Hc & _).
+      rewrite H31 in G. eauto.
+Qed.
